@@ -53,6 +53,10 @@ pub struct HPlan {
     pub ep_spurious: u64,
     /// other clients shaking hands normally at the same time
     pub others: usize,
+    /// the client never stalls but dribbles: pieces of 1-8 bytes, T/15 apart, so that its
+    /// ClientHello alone takes longer than the time-out although no gap comes near it
+    #[serde(default)]
+    pub dribble: bool,
 }
 
 impl Scenario for Handshake {
@@ -108,7 +112,16 @@ impl Scenario for Handshake {
             ep_read: CutP::draw(&mut rng, 200),
             ep_spurious: if rng.chance(1, 3) { 2 + rng.below(5) } else { 0 },
             others: if rng.chance(1, 3) { 1 + rng.usize_below(2) } else { 0 },
+            dribble: false,
         };
+        let mut plan = plan;
+        if rng.chance(1, 8) {
+            plan.dribble = true;
+            plan.seg = CutP::fixed(1 + rng.usize_below(8));
+            plan.gap_us = plan.timeout_ms * 1000 / 15;
+            plan.stall_at = None;
+            plan.max_fragment = None;
+        }
         to_plan(&plan)
     }
 
@@ -382,7 +395,9 @@ fn hs_judge(plan: &HPlan, o: &HObs, out: &mut Outcome) {
         (Some(_), None, Some(_)) => true,
         _ => false,
     };
-    let class = if plan.stall_at.is_none() || o.stall_started_at.is_none() {
+    let class = if plan.dribble {
+        "dribble"
+    } else if plan.stall_at.is_none() || o.stall_started_at.is_none() {
         "no-stall"
     } else if !stalled_in_hs {
         "stall-after-handshake"
@@ -461,6 +476,24 @@ fn hs_judge(plan: &HPlan, o: &HObs, out: &mut Outcome) {
                     "hs:request-after-handshake-failed",
                     format!("handshake completed, the request did not: {:?}", o.main),
                 );
+            }
+        }
+        "dribble" => {
+            // a ClientHello of 200+ bytes in pieces of at most 8, T/15 apart, is not complete
+            // before 1.6 T: the handshake does not complete within its time-out, whatever the gaps
+            match o.closed_at {
+                None => out.violate("C14", "hs:dribbled:not-dropped", format!("a client dribbling its ClientHello ({:?} bytes every {} us) was still connected {} us after accept, time-out {} us", plan.seg, plan.gap_us, o.end - o.t0, t_us)),
+                Some(c) => {
+                    if c + eps < o.t0 + t_us {
+                        out.violate("C14", "hs:dribbled:dropped-early", format!("dropped {} us after accept, time-out {} us", c - o.t0, t_us));
+                    }
+                    if c > o.t0 + t_us + plan.gap_us + eps {
+                        out.violate("C14", "hs:dribbled:dropped-late", format!("dropped {} us after accept, time-out {} us, pieces {} us apart", c - o.t0, t_us, plan.gap_us));
+                    }
+                }
+            }
+            if o.main.tls_ok_at.is_some() {
+                out.violate("C14", "hs:dribbled:served-after-timeout", format!("a handshake that took {:?} us was completed (time-out {} us)", o.main.tls_ok_at.map(|t| t - o.t0), t_us));
             }
         }
         "stall-long" | "stall-for-good" => {
